@@ -191,7 +191,8 @@ Definition fstep (s : st) (o : fop) : st :=
         else s
       end
   | FReg t =>
-      if memb t (registered s) then s else
+      (* registration happens inside the first log call of a live thread *)
+      if memb t (registered s) || negb (tvalid (th s t)) then s else
       {| clock := clock s; th := th s; registered := registered s ++ [t]; newflag := true;
          invalid_cnt := invalid_cnt s; cache := cache s; pc := pc s; tsnow := tsnow s; lg := lg s; sk := sk s;
          nsinks := nsinks s; nloggers := nloggers s; flags := flags s; obs := obs s;
